@@ -235,6 +235,14 @@ def _case(draw, tier):
                     'List': ['seq', 'List', x], 'Dict': ['map', 'Dict', ['cls', 'str'], x],
                     'Union': ['union', [x, ['cls', 'int']], 'U']}[w]
         a, b, c, mode = wrapt(order[0]), wrapt(order[1]), wrapt(order[0]), 'twin'
+    if draw(st.integers(0, 11)) == 0:
+        # near-miss probe: tuples over one child that differ in arity / ellipsis only (tuple[X], tuple[X, ...], tuple[X, X],
+        # tuple[()]) - unequal hints whose wrappers hold the same children, in a random order
+        x, _n = H.avoid_known_shapes(draw(H.hint_nodes(draw(st.sampled_from([0, 0, 1])))))
+        sty = draw(st.sampled_from(['t', 'T']))
+        forms = [['tupf', [x], sty], ['tupv', x, sty], ['tupf', [x, x], sty], ['tupf', [], sty]]
+        a, b, c = draw(st.permutations(forms))[:3]
+        mode = 'near'
     nex = 0
     a, n1 = _sanitize(a)
     b, n2 = _sanitize(b)
@@ -372,7 +380,8 @@ def run_case(case):
         if rel[x + y] is True and rel[y + z] is True and rel[x + z] is False:
             fail('not-transitive', '%s <= %s and %s <= %s but not %s <= %s' % (desc[x], desc[y], desc[y], desc[z], desc[x], desc[z]))
     # wrapper equality coherence
-    for x, y in (('A', 'B'), ('B', 'C'), ('A', 'C')):
+    # (== is asked in both orders: TypeHint.__eq__ is implemented per wrapper class, so the answer may depend on which side is asked)
+    for x, y in (('A', 'B'), ('B', 'C'), ('A', 'C'), ('B', 'A'), ('C', 'B'), ('C', 'A')):
         try:
             tx, ty = TypeHint(hints[x]), TypeHint(hints[y])
             if tx == ty:
